@@ -720,7 +720,7 @@ def c17(ctx):
     nss = ["same", "extended", "truncated", "other_method", "method_prefix_only", "upper_case", "no_did_scheme"]
     encs = ["canonical", "whitespace", "member_order", "padded", "trailing_bits", "tampered_char", "not_base64url", "other_request",
             "update_request", "empty", "typeless"]
-    sfxs = ["matching", "other", "empty", "prefixed", "suffixed", "doubled"]
+    sfxs = ["matching", "other", "empty", "prefixed", "suffixed", "doubled", "other_algorithm"]
     n = 400 if ctx.tier == "quick" else 6000
     probes = []
     for _ in range(n):
@@ -728,7 +728,7 @@ def c17(ctx):
         w = [6, 1, 1, 1, 1, 1, 1] if rnd.random() < 0.5 else [1] * 7
         pr = {"doc": rnd.randint(1, 5), "ns": rnd.choices(nss, weights=w)[0],
               "enc": rnd.choices(encs, weights=[6 if rnd.random() < 0.5 else 1] + [1] * 10)[0],
-              "sfx": rnd.choices(sfxs, weights=[6 if rnd.random() < 0.5 else 1] + [1] * 5)[0],
+              "sfx": rnd.choices(sfxs, weights=[6 if rnd.random() < 0.5 else 1] + [1] * 6)[0],
               "form": rnd.choices(["long", "short"], weights=[5, 1])[0]}
         probes.append(json.dumps({"kind": "resolve", "doc": pr["doc"], "keys": 1, "call": 0, "resolves": False, "probe": pr}))
     probes = sorted(set(probes))        # (the replay takes every distinct case once)
